@@ -147,16 +147,28 @@ def gen_case(rng, max_m=1000, small=False, weaver=False, large=False):
             q = p + int(rng.integers(1, max(2, m // 4)))
             y = np.array(y, dtype=float)
             y[p:q] = (np.abs(y[p:q]) / max(float(np.max(np.abs(y))), 1e-300) + 1.0) * L
+    int32 = False
+    if burst is None and not weaver and np.all(x == np.round(x)) and np.all(x_ref == np.round(x_ref)) \
+            and float(np.max(np.abs(x))) < 2.0 ** 31 - 1 and float(np.max(np.abs(x_ref))) < 2.0 ** 31 - 1 \
+            and rng.integers(0, 3) == 0:
+        # a table read with 32-bit integer columns: epoch seconds and counters around 1e6 - every single value fits,
+        # their products (value x step) and sums (x[0] + x[-1]) do not
+        y_ref = rng.integers(5 * 10 ** 5, 2 * 10 ** 6, len(x_ref)).astype(float)
+        int32 = True
     alpha = float(ALPHAS[int(rng.integers(0, 5))]) if rng.integers(0, 4) else float(rng.uniform(0.1, 6.0))
     perm = None
     if mode != "search" and rng.integers(0, 3) == 0:
         perm = [int(v) for v in rng.permutation(K)]
         if rng.integers(0, 2) and K + 1 <= m:
             perm.append(int(rng.integers(0, K)))          # one fixed point listed twice
-    case = {"x": x, "y": y, "x_ref": x_ref, "y_ref": y_ref, "idx": idx, "mode": mode, "strategy": strategy, "perm": perm,
+    both = None
+    if mode == "indices" and rng.integers(0, 4) == 0:
+        other = sorted(set(int(v) for v in rng.choice(np.arange(m), size=min(m, max(2, K)), replace=False)))
+        both = other if other != sorted(idx) else None
+    case = {"x": x, "y": y, "x_ref": x_ref, "y_ref": y_ref, "idx": idx, "mode": mode, "both_given": both, "strategy": strategy, "perm": perm,
             "on_grid": on_grid, "extras": extras, "alpha": alpha,
             "target_rule": RULES[int(rng.integers(0, 2))], "ref_rule": RULES[int(rng.integers(0, 2))],
-            "xcls": xc, "ycls": yc, "burst": burst, "m": m, "K": K, "weaver": bool(weaver),
+            "xcls": xc, "ycls": yc, "burst": burst, "int32": int32, "m": m, "K": K, "weaver": bool(weaver),
             "omit_defaults": bool(rng.integers(0, 2)), "strategy_with_explicit": bool(rng.integers(0, 2))}
     return case
 
@@ -180,6 +192,10 @@ def call_args(case, containers=None):
         kw["fixed_points_in_x"] = [float(case["x"][i]) for i in _order(case)]
     else:
         kw["fixed_points_indices_in_x"] = list(_order(case))
+        if case.get("both_given"):
+            # documented: when indices are set, the fixed points are "set according to" them - positions given next
+            # to them (here: other samples of x) must not change the outcome
+            kw["fixed_points_in_x"] = [float(case["x"][i]) for i in case["both_given"]]
     if case["mode"] != "search" and case.get("strategy_with_explicit"):
         # documented: the strategy is only used "if fixed points are not specified" - it must be inert here
         kw["fixed_points_finding_strategy"] = case["strategy"]
@@ -360,7 +376,7 @@ def judge_c03(ctx, cid, case, res, fi, ri):
 
 def brief(case):
     d = {k: case[k] for k in ("mode", "strategy", "on_grid", "extras", "alpha", "target_rule", "ref_rule", "xcls",
-                              "ycls", "burst", "m", "K", "idx", "weaver", "perm") if k in case}
+                              "ycls", "burst", "int32", "m", "K", "idx", "weaver", "perm", "both_given") if k in case}
     if case["m"] <= 24:
         d.update({"x": case["x"], "y": case["y"], "x_ref": case["x_ref"], "y_ref": case["y_ref"]})
     return d
@@ -388,7 +404,10 @@ def execute(rng, case):
     conts = {}
     args = []
     for name in ("x", "y", "x_ref", "y_ref"):
-        v, kind = gen.as_container(rng, case[name])
+        if case.get("int32") and name != "y":
+            v, kind = np.asarray(case[name]).astype(np.int32), "int32 column"
+        else:
+            v, kind = gen.as_container(rng, case[name])
         conts[name] = kind
         args.append(v)
     case["containers"] = conts
